@@ -10,7 +10,7 @@ func (s *Selector) SelectTargets(
 	graph *dag.DirectedTargetGraph,
 ) {
 	for _, node := range graph.GetNodes() {
-		if s.nodeMatchesFilters(node) && nodeMatchesPlatform(node) {
+		if s.nodeIsSelectedBy(graph, node) && nodeIsSelectablePlatform(graph, node) {
 			node.Select()
 		}
 	}
